@@ -51,24 +51,64 @@ theorem flush_invisible {s : MState} {t now now' : Int} (h : StoreInv s t) (ht :
 
 /-! ### a rejected write loses nothing -/
 
+/-- `metadata.persist` whose backend write is rejected changes nothing but the fault counter: the
+    backend is what it was — in particular the entry written earlier (under whatever deadline) is
+    still there — and the record is what it was (`stored` still points at that entry).  No
+    hypothesis on the state or the record.  (Before the repair of `persist` the entry filed under an
+    earlier deadline was deleted *before* the write was attempted, so a rejected write left the key
+    with no backend entry at all.) -/
+theorem failed_persist_keeps_old_entry (s : MState) (name : Bytes) (m : Meta)
+    (hfail : (persist s name m).2.2 = false) :
+    (persist s name m).1.disk = s.disk ∧ (persist s name m).2.1 = m ∧
+    (persist s name m).1 = { s with failSet := s.failSet - 1 } := by
+  rw [persist_false s name m hfail]
+  exact ⟨rfl, rfl, rfl⟩
+
+/-- hence whatever the record remembers as stored can still be read back after the rejected write -/
+theorem failed_persist_entry_readable (s : MState) (name : Bytes) (m : Meta)
+    (hfail : (persist s name m).2.2 = false) (e : Int) :
+    (persist s name m).2.1.stored = m.stored ∧
+    diskGet (persist s name m).1 name e = diskGet s name e := by
+  rw [persist_false s name m hfail]
+  exact ⟨rfl, rfl⟩
+
 /-- the write of a live modified record is rejected: the record stays in memory with its value
-    and stays marked modified (so no later pass may drop it without writing it first) -/
+    and stays marked modified (so no later pass may drop it without writing it first); in fact the
+    record is exactly what it was (`m1 = m`: same `stored`) and the backend is untouched, so the
+    entry written earlier survives -/
 theorem failed_write_keeps_dirty {s : MState} {t now : Int} (h : StoreInv s t) {k : Bytes} {m : Meta}
     (hm : AList.get? s.index k = some m) (hal : m.expired now = false) (hmod : m.isModified = true)
     (hf : 0 < s.failSet) :
     ∃ m1, AList.get? (gcStep now s (k, m)).index k = some m1 ∧ m1.isModified = true ∧
-      m1.value = m.value ∧ m1.exp = m.exp ∧ (gcStep now s (k, m)).failSet = s.failSet - 1 :=
+      m1.value = m.value ∧ m1.exp = m.exp ∧ (gcStep now s (k, m)).failSet = s.failSet - 1 ∧
+      m1 = m ∧ (gcStep now s (k, m)).disk = s.disk :=
   gcStep_failed h hm hal hmod hf
 
+/-- the same for the step of `flush` (and `close`): a rejected write leaves record and backend as
+    they were -/
+theorem failed_flush_write_keeps {s : MState} {t now : Int} (h : StoreInv s t) {k : Bytes} {m : Meta}
+    (hm : AList.get? s.index k = some m) (hal : m.expired now = false) (hmod : m.isModified = true)
+    (hf : 0 < s.failSet) :
+    AList.get? (flushStep now s (k, m)).index k = some m ∧ (flushStep now s (k, m)).disk = s.disk ∧
+    (flushStep now s (k, m)).failSet = s.failSet - 1 := by
+  rw [flushStep_failed_eq (h.recs k m hm).ok hal hmod hf]
+  exact ⟨by simp [putMeta, Proofs.AListLemmas2.get?_set], rfl, rfl⟩
+
 /-- a whole pass during which the backend rejects every write: every live modified record is
-    still hot, still modified, same value, same deadline; the logical keyspace and the invariant
-    are untouched (`gc_invisible`, `gc_preserves_inv` hold for every `failSet`) -/
+    still hot, still modified, same value, same deadline — it is exactly the record it was
+    (`m1 = m`, so `stored` is unchanged) — and every backend entry of its name is still in place
+    (on Pebble the very same entry; in memory the same shared object); the logical keyspace and the
+    invariant are untouched (`gc_invisible`, `gc_preserves_inv` hold for every `failSet`) -/
 theorem failed_pass_keeps_dirty {s : MState} {t now : Int} (h : StoreInv s t) (ht : t ≤ now) (hnil : NilFree s)
     (hc : s.closed = false) (hf : s.index.length ≤ s.failSet) {k : Bytes} {m : Meta}
     (hm : AList.get? s.index k = some m) (hal : m.expired now = false) (hmod : m.isModified = true) :
     ∃ m1, AList.get? (gc s now).index k = some m1 ∧ m1.isModified = true ∧ m1.value = m.value ∧
-      m1.exp = m.exp :=
-  gc_all_fail h ht hnil hc hf hm hal hmod
+      m1.exp = m.exp ∧ m1 = m ∧
+      ∀ dk e0, AList.get? s.disk dk = some e0 → e0.name = k →
+        ∃ e, AList.get? (gc s now).disk dk = some e ∧ e.name = e0.name ∧ e.exp = e0.exp ∧ e.oid = e0.oid ∧
+          (s.pebble = true → e = e0) := by
+  obtain ⟨a, b⟩ := gc_all_fail_keeps h ht hnil hc hf hm hal hmod
+  exact ⟨m, a, hmod, rfl, rfl, rfl, b⟩
 
 /-- a later pass without rejected writes persists everything: no record is left modified, hence
     (invariant) every live record is cold or has its current value in the backend under its current
@@ -332,6 +372,14 @@ example : StoreInv { exState true with failSet := 2 } 0 ∧
     ⟨{ exp := 0, value := some (.str [1]), state := 3, kid := 1, oid := 2, vtype := 1 },
       by simp [exState, AList.get?], by decide, by decide⟩⟩
 
+/-- hypothesis of `failed_persist_keeps_old_entry`: a rejected write of a record whose value sits in
+    the backend under an earlier deadline (5) than its current one (9); the old entry is still there -/
+example : (persist staleState [107] staleRec).2.2 = false ∧
+    diskGet (persist staleState [107] staleRec).1 [107] 5 = diskGet staleState [107] 5 ∧
+    (diskGet staleState [107] 5).isSome = true := by
+  exact ⟨staleState_persist_fails, (failed_persist_entry_readable _ _ _ staleState_persist_fails 5).2,
+    staleState_entry⟩
+
 /- UNPROVED (C12):
    * `any_eviction_schedule_invisible` covers 32 single-key commands + DEL + RENAME + KEYS (list in the
      comment above the theorem).  Through `Cmd.raw`: SETEX, PSETEX, BITCOUNT, EXPIREAT LT|GT, EXPIRE NX|XX|LT|GT,
@@ -346,8 +394,9 @@ example : StoreInv { exState true with failSet := 2 } 0 ∧
    * SCAN is proved invisible across one pass (`scan_gc_invisible_partial`) but is not a `Step` of the
      schedule theorem (its reply depends on index positions, not on the logical keyspace: finding
      `scan_gc_finding`).
-   * `failed_pass_keeps_dirty` is stated for `gc`; for `flush` only the consequences
-     "invariant + logical keyspace unchanged for every `failSet`" (`flush_invisible`) are proved.
+   * `failed_pass_keeps_dirty` is stated for `gc`; for `flush` the single step
+     (`failed_flush_write_keeps`) and the consequences "invariant + logical keyspace unchanged for
+     every `failSet`" (`flush_invisible`) are proved, not the whole-pass version.
 -/
 
 end NodisVerif.C12
